@@ -162,8 +162,12 @@ def corr_extract(ctx, pool):
     rng = ctx.rng
     n = 40 if ctx.quick else 800
     body, meta = [], []
-    for i in range(n):
-        sp = multi_section_spec(rng, i)
+    # fixed corpus, always first: unsorted pipe labels with differing section counts (the shapes that exposed the former
+    # t_outlet_k / mean placement defects), labels on both sides of 1e5, rotations
+    corpus = [mon.witness_spec(l, s) for l, s in (([7, 3, 5], [1, 3, 2]), ([2, 0, 1], [3, 1, 2]), ([100003, 4, 17], [2, 4, 1]),
+                                                  ([5, 9, 1], [4, 2, 3]), ([30, 10, 20], [2, 3, 1]))]
+    for i in range(-len(corpus), n):
+        sp = corpus[i] if i < 0 else multi_section_spec(rng, i)
         try:
             cs = extract_case(rng, sp)
         except Exception as e:  # noqa: BLE001
